@@ -35,6 +35,7 @@ def _init(_):
     from hed.models.definition_dict import DefinitionDict
     _G["schema"] = load_schema_version("8.3.0")
     _G["dd"] = DefinitionDict(DEFS, _G["schema"])
+    _G["work"] = _
 
 
 def concretise(case, rot):
@@ -60,10 +61,10 @@ def concretise(case, rot):
     return table, sidecar, code, rowtext
 
 
-def validate_table(table, sidecar):
+def validate_table(table, sidecar, as_object=False):
     import pandas as pd
     from hed import Sidecar, TabularInput
-    df = pd.DataFrame(table, dtype=str)
+    df = pd.DataFrame(table, dtype=object if as_object else str)
     t = TabularInput(df, sidecar=Sidecar(io.StringIO(json.dumps(sidecar))))
     issues = t.validate(_G["schema"], extra_def_dicts=_G["dd"])
     out = []
@@ -82,6 +83,15 @@ def execute(args):
         got = validate_table(table, sidecar)
     except Exception as ex:  # noqa
         return ci, [("raises:%s" % type(ex).__name__, "validate raised %s: %s for table %s" % (type(ex).__name__, ex, table))], None
+    # the same table handed over as a DataFrame whose n/a cells are MISSING values (None / NaN, what pandas reads by default)
+    try:
+        tm = {k: [None if (x == "n/a" and k != "onset") else x for x in v] for k, v in table.items()}
+        got_m = validate_table(tm, sidecar, as_object=True)
+        if sorted(got_m, key=repr) != sorted(got, key=repr):
+            problems.append(("missing-cells:differs", "table %s with its n/a cells given as missing values reports %s, with n/a %s" % (table, got_m, got)))
+    except Exception as ex:  # noqa
+        problems.append(("missing-cells:raises:%s" % type(ex).__name__, "validate raised %s: %s for table %s whose n/a cells are missing values (None)"
+                         % (type(ex).__name__, ex, table)))
     want_err = sorted({(code if c == "TAG_INVALID" else c, r, col) for c, r, col in map(tuple, case["errors"])})
     got_err = sorted({(c, r, col) for c, s, r, col in got if s == 1})
     dirty = {r for c, r, col in want_err if col}          # rows with a failing cell: "at least every error of every cell"
@@ -132,6 +142,33 @@ def execute(args):
         except Exception as ex:  # noqa
             problems.append(("headerless:raises:%s" % type(ex).__name__, "validating the spreadsheet without header %r raised %s: %s"
                              % (lines, type(ex).__name__, ex)))
+        # ... and as an Excel workbook WITH a header line whose n/a cells are simply left empty
+        if ci % 3 == 0:
+            import openpyxl
+            xp = os.path.join(_G.get("work") or "/tmp", "c07_%d_%d.xlsx" % (os.getpid(), ci))
+            try:
+                wb = openpyxl.Workbook()
+                ws = wb.active
+                ws.append(["colA", "colB"])
+                for ln in lines:
+                    ws.append([None if x == "n/a" else x for x in ln.split("\t")])
+                wb.save(xp)
+                gx = SpreadsheetInput(xp, tag_columns=["colA", "colB"]).validate(_G["schema"], extra_def_dicts=_G["dd"],
+                                                                                 error_handler=ErrorHandler(check_for_warnings=True))
+                got_x = sorted({(i.get("code"), i.get("ec_row"), "" if i.get("ec_column") is None else i.get("ec_column"))
+                                for i in gx if i.get("severity", 1) == 1}, key=repr)
+                want_x = sorted({(c_, r_, {"HED": "colA", "cat": "colB"}.get(col_, "")) for c_, r_, col_ in want_err}, key=repr)
+                dirty_x = {r_ for c_, r_, col_ in want_x if col_ != ""}
+                if [x for x in want_x if x not in got_x] or [x for x in got_x if x not in want_x and x[1] not in dirty_x]:
+                    problems.append(("excel:errors-differ", "Excel sheet %r (n/a cells left empty): errors reported %s, prescribed %s" % (lines, got_x, want_x)))
+            except Exception as ex:  # noqa
+                problems.append(("excel:raises:%s" % type(ex).__name__, "validating the Excel sheet %r (n/a cells left empty) raised %s: %s"
+                                 % (lines, type(ex).__name__, ex)))
+            finally:
+                try:
+                    os.remove(xp)
+                except OSError:
+                    pass
     # a value column referenced in curly braces from the categorical entries: its one failing cell must be reported at ITS
     # file row, in whatever order the rows (onsets) come
     if n >= 2 and code != "VALUE_INVALID" and any(r["c"] in ("a", "b") for r in case["rows"]):
@@ -208,7 +245,7 @@ def run(ctx):
             seen.add(k)
             cases.append(j)
     jobs = [(ci, c, ctx.seed * 13 + ci) for ci, c in enumerate(cases)]
-    with mp.get_context("fork").Pool(14, initializer=_init, initargs=(None,)) as pool:
+    with mp.get_context("fork").Pool(14, initializer=_init, initargs=(ctx.work,)) as pool:
         res = pool.map(execute, jobs, chunksize=32)
     for ci, problems, sample in res:
         c = cases[ci]
